@@ -541,23 +541,26 @@ def wire_forms(ctx, payloads, ids):
                 expects.append(exp)
             except Exception:
                 pass
-    # stdio
-    steps = [("send", m) for m in msgs] + [("settle",)]
-    try:
-        out = run_stdio_script(steps)
-        lines = [l for l in out["stdin_before_exit"].split(b"\n") if l]
-        if len(lines) != len(msgs):
-            ctx.violation("stdio_line_count", f"{len(lines)} lines for {len(msgs)} messages", {"wire": "stdio"})
-        for l, exp in zip(lines, expects):
-            try:
-                decoded = json.loads(l.decode("utf-8"))
-            except Exception as e:  # noqa
-                ctx.violation("wire_not_json", f"stdio line {l[:80]!r}: {e!r}", {"wire": "stdio"})
-                continue
-            check_emission(ctx, "wire:stdio", None, {"wire": "stdio", "expect": exp}, expect=exp, wire=decoded)
-        ctx.record({"wire": "stdio", "n": len(msgs)}, shape=len(lines), cls="wire")
-    except Exception as e:  # noqa
-        ctx.notes.append(f"stdio wire form not driven: {e!r}"[:200])
+    # stdio - also with a negotiated version recorded on the client: whatever that version allows the *server* to send,
+    # what the client writes is one valid message per line
+    for version in (None, "2025-03-26", "2024-11-05", "2025-06-18"):
+        steps = ([("version", version)] if version else []) + [("send", m) for m in msgs] + [("settle",)]
+        wcase = {"wire": "stdio", "version": version}
+        try:
+            out = run_stdio_script(steps)
+            lines = [l for l in out["stdin_before_exit"].split(b"\n") if l]
+            if len(lines) != len(msgs):
+                ctx.violation("stdio_line_count", f"{len(lines)} lines for {len(msgs)} messages (version {version!r})", wcase)
+            for l, exp in zip(lines, expects):
+                try:
+                    decoded = json.loads(l.decode("utf-8"))
+                except Exception as e:  # noqa
+                    ctx.violation("wire_not_json", f"stdio line {l[:80]!r}: {e!r}", wcase)
+                    continue
+                check_emission(ctx, "wire:stdio", None, dict(wcase, expect=exp), expect=exp, wire=decoded)
+            ctx.record(dict(wcase, n=len(msgs)), shape=len(lines), cls="wire")
+        except Exception as e:  # noqa
+            ctx.notes.append(f"stdio wire form not driven: {e!r}"[:200])
 
     # http + sse
     async def http_main():
